@@ -162,15 +162,37 @@ class Op(Expr):
         return "Op(%s,%s)" % (self.op, ",".join(repr(arg) for arg in self.args))
 
     def __str__(self):
+        # The grammar of parser2 is precedence-free and right-nesting on arithmetic, lets unary minus and
+        # if-then-else capture everything to their right, and only accepts "~" in front of an atom.
+        # Parenthesise accordingly, so that parsing the printed text gives back the same expression.
+        def paren(e, cond):
+            return '(' + str(e) + ')' if cond else str(e)
+
+        bool_prec = {'&': 35, '|': 30, '-->': 25, '<-->': 25}
+
+        def prec(e):
+            if isinstance(e, (ITE, Forall)):
+                return 0
+            if isinstance(e, Op) and len(e.args) == 2 and e.op in bool_prec:
+                return bool_prec[e.op]
+            return 100
+
         if len(self.args) == 1:
-            return "%s%s" % (self.op, str(self.args[0]))
+            a = self.args[0]
+            if self.op == '-':
+                return '-' + paren(a, isinstance(a, Op) and len(a.args) == 2)
+            else:
+                return '~' + paren(a, prec(a) < 100 or (isinstance(a, Op) and a.op == '~'))
         elif len(self.args) == 2:
-            arg1 = str(self.args[0])
-            arg2 = str(self.args[1])
-            if self.op == '*' and isinstance(self.args[0], Op) and self.args[0].op in ('+', '-'):
-                arg1 = '(' + arg1 + ')'
-            if self.op == '*' and isinstance(self.args[1], Op) and self.args[1].op in ('+', '-'):
-                arg2 = '(' + arg2 + ')'
+            a1, a2 = self.args
+            if self.op in ('+', '-', '*'):
+                arg1 = paren(a1, isinstance(a1, Op))
+                arg2 = paren(a2, self.op == '*' and isinstance(a2, Op) and len(a2.args) == 2 and a2.op in ('+', '-'))
+            elif self.op in bool_prec:
+                arg1 = paren(a1, prec(a1) <= bool_prec[self.op])
+                arg2 = paren(a2, prec(a2) < bool_prec[self.op])
+            else:
+                arg1, arg2 = str(a1), str(a2)
             return "%s %s %s" % (arg1, self.op, arg2)
         else:
             raise NotImplementedError
